@@ -557,6 +557,8 @@ func totalAdversary(f Fields) (dec string, b []byte) {
 	switch f["kind"] {
 	case "gdef-alias": // §9 #37
 		return "gdef", totalGdefAliased(num("sets", 20), 0xffff)
+	case "gdef-markglyphsets": // shared full-range coverage tables at non-adjacent entries: decoded once each
+		return "gdef", totalGdefMarkGlyphSets(f["pattern"], num("n", 200), num("seed", 1))
 	case "gdef-distinct":
 		return "gdef", totalGdefDistinct(num("sets", 2), 0xffff)
 	case "kern-alias": // §9 #35
@@ -1508,6 +1510,38 @@ func totalGdefAliased(sets, last int) []byte {
 	b = append(b, totalBe16b(0)...)
 	b = append(b, totalBe16b(last)...)
 	b = append(b, 0, 0)
+	return b
+}
+
+// totalGdefMarkGlyphSets: GDEF 1.2 whose n MarkGlyphSets offsets refer, in the given pattern, to a few
+// 10-byte format-2 coverage tables 0..0xFFFF, so that tables are shared by NON-adjacent entries:
+// same = A,A,A…; alternating = A,B,A,B…; three-cycle = A,B,C,A,B,C…; random = seeded draw from 4 tables;
+// blocks = A…A,B…B,A…A,B…B (runs of adjacent entries, then the same tables again).
+func totalGdefMarkGlyphSets(pattern string, n, seed int) []byte {
+	b := []byte{0, 1, 0, 2, 0, 0, 0, 0, 0, 0, 0, 0, 0, 14}
+	b = append(b, 0, 1)
+	b = append(b, totalBe16b(n)...)
+	base := 4 + 4*n
+	x := uint32(seed)*2654435761 + 12345
+	k := 1
+	for i := 0; i < n; i++ {
+		j := 0
+		switch pattern {
+		case "alternating":
+			j, k = i%2, 2
+		case "three-cycle":
+			j, k = i%3, 3
+		case "random":
+			x = x*1664525 + 1013904223
+			j, k = int(x>>24)%4, 4
+		case "blocks":
+			j, k = (i*4/(n+1))%2, 2
+		}
+		b = append(b, totalBe32b(base+10*j)...)
+	}
+	for j := 0; j < k; j++ {
+		b = append(b, 0, 2, 0, 1, 0, 0, 0xff, 0xff, 0, 0)
+	}
 	return b
 }
 
@@ -3410,6 +3444,14 @@ func areaTotal(c *Ctx) {
 	adv("kind=gpos21-alias k=20 acc=0")
 	adv("kind=chain3-alias k=1 acc=0")
 	adv("kind=gpos51-alias n=1 acc=0")
+	// GDEF mark glyph sets sharing full-range coverage tables between non-adjacent entries (strict, decoder alone:
+	// Table.Encode writes every set separately, so the accessor run costs n x 65536 by construction)
+	for _, pat := range []string{"same", "alternating", "three-cycle", "random", "blocks"} {
+		for _, n := range []int{60, 200} {
+			adv(fmt.Sprintf("kind=gdef-markglyphsets pattern=%s n=%d acc=0 strict=1", pat, n))
+		}
+	}
+	adv(fmt.Sprintf("kind=gdef-markglyphsets pattern=random n=120 seed=%d acc=0 strict=1", 1+r.Intn(1000)))
 	// count vs coverage disagreement for every subtable type pairing a coverage table with a counted array
 	for _, t := range totalCovCountTypes {
 		p := strings.Fields(t)
